@@ -393,6 +393,15 @@ Definition once_kind (p : pat) : bool :=
 
 Definition roots (o : outcome) : option nat := option_map (fun rt => cnt is_root_ev (snd rt)) o.
 
+(* the whole assertion with a root `_`: nothing reported, nothing formatted, the asserted expression evaluated exactly once *)
+Theorem root_wildcard_evaluates_once : forall j id ts en,
+  exec_top j (PWild id) ts en = Some ([], [EvRoot]).
+Proof. reflexivity. Qed.
+
+(* for every other root pattern the whole assertion is the pattern's own expansion *)
+Theorem exec_top_is_exec : forall j p ts en, is_wild p = false -> exec_top j p ts en = exec (expand j p (VRoot ts)) en.
+Proof. intros j p ts en H. unfold exec_top. rewrite H. reflexivity. Qed.
+
 Lemma test_root_count en r ts p rep tr sp id x :
   p = mk_push sp id (ADebug (VRoot ts)) x ->
   test en r [EvRoot] p None = Some (rep, tr) ->
